@@ -300,6 +300,61 @@ fn all_scripts(k: usize, alphabet: &[Act]) -> Vec<Vec<Act>> {
     out
 }
 
+/// two announce_peer puts for one info_hash with different ports on the same node, the second issued
+/// while the first is at `stage` (0 = its lookup is running, 1 = after it completed); honest peers
+/// acknowledge every store request. Observed: both results, and how many acknowledged store requests
+/// carried each put's own port.
+pub fn two_puts_case(r: &mut Rng, stage: u8) -> String {
+    let n = 4;
+    let mut s = Scn::new(r, n, false, Default::default());
+    let ih = Id::random();
+    let mk = |port: u16| PutRequestSpecific::AnnouncePeer(AnnouncePeerRequestArguments { info_hash: ih, port, implied_port: None });
+    let (tx1, rx1) = flume::unbounded();
+    let (tx2, rx2) = flume::unbounded();
+    let mut acked = [0u64; 2];
+    let mut run = |s: &mut Scn, acked: &mut [u64; 2]| {
+        for _ in 0..300 {
+            let mut got: Vec<u16> = Vec::new();
+            let k = s.step(&mut |s, inc| {
+                if let Some(req) = as_request(&inc.msg) {
+                    if let RequestTypeSpecific::Put(p) = &req.request_type {
+                        if let PutRequestSpecific::AnnouncePeer(a) = &p.put_request_type {
+                            got.push(a.port);
+                        }
+                    }
+                }
+                s.honest(inc)
+            });
+            for p in got {
+                if p == 1111 {
+                    acked[0] += 1;
+                } else if p == 2222 {
+                    acked[1] += 1;
+                }
+            }
+            let snap = s.snap();
+            if k == 0 && snap.iterative_queries == 0 && snap.put_queries == 0 {
+                break;
+            }
+        }
+    };
+    s.node.actor.verif_put(mk(1111), tx1, None);
+    if stage == 1 {
+        run(&mut s, &mut acked);
+    } else {
+        // let the lookup start, not finish
+        s.node.tick();
+    }
+    s.node.actor.verif_put(mk(2222), tx2, None);
+    run(&mut s, &mut acked);
+    let res = |rx: &flume::Receiver<Result<Id, PutError>>| match rx.try_recv() {
+        Ok(Ok(_)) => "(Some true)",
+        Ok(Err(_)) => "(Some false)",
+        Err(_) => "None",
+    };
+    format!("KTwoPuts {} {} {} {} {}", boolean(stage == 1), res(&rx1), res(&rx2), acked[0], acked[1])
+}
+
 pub fn generate(seed: u64, scale: usize, which: &str) -> Cases {
     let mut r = Rng::new(seed ^ 0xC08);
     let mut cases = Cases::new();
@@ -334,6 +389,9 @@ pub fn generate(seed: u64, scale: usize, which: &str) -> Cases {
         }
         return cases;
     }
+    // corpus: two different announce puts for one target on one node
+    cases.push("corpus-two-announces-overlapping", two_puts_case(&mut r, 0));
+    cases.push("corpus-two-announces-sequential", two_puts_case(&mut r, 1));
     // C08: every split of {ack, 203, 205, 301, 302, 999} for small sets (exhaustive for <= 3), random beyond
     let alphabet = [Act::Ack, Act::Err(203), Act::Err(205), Act::Err(301), Act::Err(302), Act::Err(999)];
     for n in 1..=3usize {
